@@ -340,7 +340,7 @@ Section Fixed.
       repeat split; try lia; [intros ? [= <-]; lia|constructor].
     - (* AMsg *)
       rewrite Hdep. destruct (dmax <=? depth) eqn:Ed; [exact I|]. apply N.leb_gt in Ed.
-      destruct (e_stack e <? depth + 1) eqn:Es; [apply N.ltb_lt in Es; unfold machine_ok; lia|].
+      destruct (e_stack e <? depth + 1) eqn:Es; [apply N.ltb_lt in Es; cbn; unfold machine_ok; intros (_ & _ & Hs); lia|].
       rewrite (sub_limit_exact (e_debug e) p n Hn). cbn [bind].
       pose proof (Hrec m (Some (p + n)) p (depth + 1) Hp ltac:(lia) Hf) as H.
       destruct (rec m (Some (p + n)) p (depth + 1)) as [[[p' flds] tr]|x| | |]; cbn in H |- *; try tauto.
